@@ -88,6 +88,9 @@ class C06(Check):
             yield {"schema": "int", "records": list(range(100)), "codec": codec, "sync_interval": 150, "marker": b"\x07" * 16, "parsed": False}
         yield {"schema": {"type": "record", "name": "R", "fields": [{"name": "a", "type": "string"}, {"name": "b", "type": "boolean"}]},
                "records": [{"a": "x" * i, "b": i % 2 == 0} for i in range(5)], "codec": "null", "sync_interval": 1, "marker": b"\x00" * 16, "parsed": False}
+        big = {"type": "record", "name": "Big", "fields": [{"name": "id", "type": "int"}, {"name": "body", "type": "string"}]}
+        yield {"schema": big, "records": [{"id": 1, "body": "x" * 70000}], "codec": "null", "sync_interval": 10**6, "marker": b"\x03" * 16, "parsed": False}
+        yield {"schema": {"type": "record", "name": "BigB", "fields": [{"name": "body", "type": "bytes"}]}, "records": [{"body": b"\x01" * 66000}, {"body": b"\x02" * 3}], "codec": "deflate", "sync_interval": 10, "marker": b"\x04" * 16, "parsed": False}
         yield {"schema": "null", "records": [None] * 3, "codec": "null", "sync_interval": 1, "marker": b"\x01" * 16, "parsed": False}
 
     def run_case(self, case):
